@@ -116,7 +116,7 @@ class StaleHandler(logging.Handler):
 class Session:
     SRC = ("127.0.0.9", 4242)
 
-    def __init__(self, trx_defs=(), bts_port=5700, bb_port=6700, bts_addr=None, bb_addr=None, sched_rr_prio=None, privileged=False):
+    def __init__(self, trx_defs=(), bts_port=5700, bb_port=6700, bts_addr=None, bb_addr=None, sched_rr_prio=None, privileged=False, bind_addr=None):
         """trx_defs: list of (addr, port, idx) additional --trx definitions; bts_addr / bb_addr: -R / -r (peers of BTS and MS)"""
         common.import_toolkit()
         self.FS = fakesock.install()
@@ -158,6 +158,8 @@ class Session:
             argv += ["-R", bts_addr]
         if bb_addr is not None:
             argv += ["-r", bb_addr]
+        if bind_addr is not None:
+            argv += ["-b", bind_addr]
         for addr, port, idx in trx_defs:
             argv += ["--trx", "%s:%d/%d" % (addr, port, idx)]
         old_argv, old_print = sys.argv, builtins.print
